@@ -20,10 +20,11 @@ _BUF = emf_value.PRELUDE[:emf_value.PRELUDE.index("// ==========================
 
 PRELUDE = _BUF + r'''
 broadcast use tok_axioms::axiom_tok_len_pos;
-// ---- assumed: hashbrown::HashMap entry API over a ghost map keyed by the name's text ---------------
+// ---- assumed: hashbrown::HashMap entry API over a ghost map keyed by the key's text ----------------
+pub trait KeyView { spec fn kview(&self) -> Seq<char>; }
 pub mod hashbrown {
     use vstd::prelude::*;
-    use super::SCow;
+    use super::KeyView;
     #[verifier::external_body]
     #[verifier::reject_recursive_types(K)]
     #[verifier::reject_recursive_types(V)]
@@ -31,11 +32,11 @@ pub mod hashbrown {
     impl<K, V> HashMap<K, V> {
         pub uninterp spec fn view(&self) -> Map<Seq<char>, V>;
         #[verifier::external_body]
-        pub fn entry_ref<'a, 'b, 'c>(&'a mut self, key: &'b SCow<'c>) -> (r: EntryRef<'a, K, V>)
+        pub fn entry_ref<'a, 'b, Q: KeyView>(&'a mut self, key: &'b Q) -> (r: EntryRef<'a, K, V>)
             ensures
                 match r {
-                    EntryRef::Occupied(o) => old(self)@.contains_key(key@) && o.key@ == key@ && *o.map == *old(self) && *final(o.map) == *final(self),
-                    EntryRef::Vacant(v) => !old(self)@.contains_key(key@) && v.key@ == key@ && *v.map == *old(self) && *final(v.map) == *final(self),
+                    EntryRef::Occupied(o) => old(self)@.contains_key(key.kview()) && o.key@ == key.kview() && *o.map == *old(self) && *final(o.map) == *final(self),
+                    EntryRef::Vacant(v) => !old(self)@.contains_key(key.kview()) && v.key@ == key.kview() && *v.map == *old(self) && *final(v.map) == *final(self),
                 }
         { unimplemented!() }
     }
@@ -84,6 +85,7 @@ pub use hashbrown::EntryRef;
 // ---- the name: SCow(Cow<str>) is opaque; its text is its view --------------------------------------
 #[verifier::external_body] pub struct SCow<'a> { p: core::marker::PhantomData<&'a ()> }
 impl<'a> SCow<'a> { pub uninterp spec fn view(&self) -> Seq<char>; }
+impl<'a> KeyView for SCow<'a> { open spec fn kview(&self) -> Seq<char> { self@ } }
 impl<'a> core::ops::Deref for SCow<'a> {
     type Target = str;
     #[verifier::external_body] fn deref(&self) -> (r: &str) ensures r@ == self@ { unimplemented!() }
